@@ -178,4 +178,7 @@ NOT_APPLICABLE = {p: "check under construction in this session (will be claimed 
                   for p in ["C%02d" % i for i in range(1, 21)] if p not in CLAIMED}
 NOTES = ("All checks are static: ./check <ID> parses /repo's working tree on every run (81 units), evaluates the property's rules at every site and "
          "writes /verif/evidence/<ID>.json. exit 0 = all obligations hold (KNOWN-FINDING lines allowed), 1 = VIOLATION line(s), 2 = ANALYSIS-ERROR "
-         "(anchor vanished / idiom not recognised). known_findings.json lists recorded and fixed defects.")
+         "(anchor vanished / idiom not recognised). known_findings.json lists recorded and fixed defects. Before the rules run, every function of the "
+         "current tree that is provably equivalent (equal normal forms: def-use webs, helper inlining, control-flow and expression spelling; pv/equiv.py) to "
+         "its counterpart in the committed reference tree (anchors/tree) is analysed in the reference shape, so behaviour-preserving refactorings do not "
+         "disturb shape facts; anything not proven equivalent is analysed as it stands.")
